@@ -1,14 +1,19 @@
 import Proofs.VecProtoInv
 import Proofs.VecProtoLegal
 import Proofs.VecProtoWait
+import Proofs.VecProtoPrompt
 
 /-!
 # C13 — the vector environment rejects misuse and survives worker faults without hanging
 
 Model: `Model/VecProto.lean` — the async state machine of `AsyncPettingZooVecEnv` with worker
 faults (`raise T | sleep | kill` at a given command of a given worker).  `State.step : State → Op →
-State × Outcome` is one public call; `Outcome = ok | err <error class> | hang`.  `fixed = true` is the
-code with fixes/C13-close-after-worker-death.diff applied, `fixed = false` the code before it.
+State × Outcome` is one public call (the async/wait pairs, `set_attr`, `close`, and the synchronous
+wrappers `reset()` / `step()` / `call()` = `get_attr()` = `render()`); `Outcome = ok | err <error
+class> | hang`.  `fixed = true` is the code with fixes/C13-close-after-worker-death.diff applied
+(in /repo since b01184c), `fixed = false` the code before it; `fix2 = true` is the code with
+fixes/C13-close-timeout-and-interrupt.diff (close(timeout) bounds its handshake and joins),
+`fix2 = false` the current tree.  A wait's `timed` flag stands for ANY timeout value, 0 included.
 
 Liveness, timing and OS-level process death are *assumptions* A1–A7 of the model (listed at the top
 of the model file) and are validated only by the fault-injection correspondence (harness/c13.py).
@@ -17,12 +22,12 @@ Everything below is proved for all worker counts, all fault scripts and all call
 namespace VecProto
 
 /-- the documented error class of a call the protocol forbids in state `s` (`none` = legal):
-    anything but `close` on a closed environment → `ClosedEnvironmentError`; an `*_async` call or
-    `set_attr` while a call is pending → `AlreadyPendingCallError`; an `X_wait` without a pending
-    `X_async` → `NoAsyncCallError` -/
+    anything but `close` on a closed environment → `ClosedEnvironmentError`; an `*_async` call,
+    `set_attr` or a synchronous wrapper (`reset`, `step`, `call`/`get_attr`/`render`) while a call is
+    pending → `AlreadyPendingCallError`; an `X_wait` without a pending `X_async` → `NoAsyncCallError` -/
 def misuse (s : State) : Op → Option Exc
   | .close _ _ => none
-  | .resetAsync | .stepAsync | .callAsync | .setAttr =>
+  | .resetAsync | .stepAsync | .callAsync | .setAttr | .resetSync | .stepSync | .callSync =>
     if s.closed then some .closedEnv else if s.astate ≠ .default then some .alreadyPending else none
   | .resetWait _ =>
     if s.closed then some .closedEnv else if s.astate ≠ .wreset then some .noAsyncCall else none
@@ -39,7 +44,7 @@ theorem C13_misuse_errors (s : State) (op : Op) (e : Exc) (h : misuse s op = som
   case close => simp [misuse] at h
   all_goals
     simp only [misuse] at h
-    simp only [State.step, asyncOp, waitOp, setAttrOp]
+    simp only [State.step, syncOp, asyncOp, waitOp, setAttrOp]
     split at h
     · rename_i hc; cases h; simp [hc]
     · rename_i hc
@@ -52,6 +57,33 @@ theorem C13_misuse_errors (s : State) (op : Op) (e : Exc) (h : misuse s op = som
 theorem C13_misuse_transparent (s : State) (op : Op) (e : Exc) (h : misuse s op = some e) (ops : List Op) :
     s.runOps (op :: ops) = ((s.runOps ops).1, .err e :: (s.runOps ops).2) := by
   rw [State.runOps, C13_misuse_errors s op e h]
+
+/-- with a call pending, EVERY entry point except the matching wait and `close` — the other
+    `*_async` calls, `set_attr`, the synchronous `reset()` / `step()` / `call()` / `get_attr()` /
+    `render()`, the two other waits — is rejected and leaves the whole configuration (state, pipes,
+    unread replies of the pending call) exactly as it was; so the pending call completes with its own
+    results and everything after it is as if the rejected call had never been made
+    (`C13_misuse_transparent`) -/
+theorem C13_rejected_call_keeps_pending (s : State) (hc : s.closed = false) (hp : s.astate ≠ .default)
+    (op : Op) (hcl : ∀ t k, op ≠ .close t k)
+    (hw : ∀ t, (op = .resetWait t → s.astate ≠ .wreset) ∧ (op = .stepWait t → s.astate ≠ .wstep) ∧
+      (op = .callWait t → s.astate ≠ .wcall)) :
+    ∃ e, (e = .alreadyPending ∨ e = .noAsyncCall) ∧ s.step op = (s, .err e) := by
+  cases op with
+  | close t k => exact absurd rfl (hcl t k)
+  | resetWait t =>
+    exact ⟨.noAsyncCall, Or.inr rfl, C13_misuse_errors s _ _ (by simp [misuse, hc, (hw t).1 rfl])⟩
+  | stepWait t =>
+    exact ⟨.noAsyncCall, Or.inr rfl, C13_misuse_errors s _ _ (by simp [misuse, hc, (hw t).2.1 rfl])⟩
+  | callWait t =>
+    exact ⟨.noAsyncCall, Or.inr rfl, C13_misuse_errors s _ _ (by simp [misuse, hc, (hw t).2.2 rfl])⟩
+  | resetAsync => exact ⟨.alreadyPending, Or.inl rfl, C13_misuse_errors s _ _ (by simp [misuse, hc, hp])⟩
+  | stepAsync => exact ⟨.alreadyPending, Or.inl rfl, C13_misuse_errors s _ _ (by simp [misuse, hc, hp])⟩
+  | callAsync => exact ⟨.alreadyPending, Or.inl rfl, C13_misuse_errors s _ _ (by simp [misuse, hc, hp])⟩
+  | setAttr => exact ⟨.alreadyPending, Or.inl rfl, C13_misuse_errors s _ _ (by simp [misuse, hc, hp])⟩
+  | resetSync => exact ⟨.alreadyPending, Or.inl rfl, C13_misuse_errors s _ _ (by simp [misuse, hc, hp])⟩
+  | stepSync => exact ⟨.alreadyPending, Or.inl rfl, C13_misuse_errors s _ _ (by simp [misuse, hc, hp])⟩
+  | callSync => exact ⟨.alreadyPending, Or.inl rfl, C13_misuse_errors s _ _ (by simp [misuse, hc, hp])⟩
 
 /-- every call other than `close` on a closed environment raises `ClosedEnvironmentError` -/
 theorem C13_use_after_close_rejected (s : State) (op : Op) (hc : s.closed = true)
@@ -117,32 +149,82 @@ theorem C13_timeout_is_timeout (s : State) (a : AState) (hc : s.closed = false) 
     exact waitCore_timeout_only s _ timed h
 
 /-- the configurations reachable from a fresh environment -/
-def reach (fixed : Bool) (n : Nat) (script : List (Nat × FaultAt)) (ops : List Op) : State :=
-  ((init fixed n script).runOps ops).1
+def reach (fixed : Bool) (n : Nat) (script : List (Nat × FaultAt)) (ops : List Op) (fix2 : Bool := true) : State :=
+  ((init fixed n script fix2).runOps ops).1
 
-/-- repaired code: after ANY call sequence on ANY number of workers under ANY fault script
-    (raise, sleep *and* kill), `close()` — plain, with timeout, or with terminate — returns
-    normally, marks the environment closed, and no worker process is alive -/
-theorem C13_close_kills_all (n : Nat) (script : List (Nat × FaultAt)) (ops : List Op) (timed terminate : Bool) :
-    ((reach true n script ops).step (.close timed terminate)).2 = .ok ∧
-    ((reach true n script ops).step (.close timed terminate)).1.closed = true ∧
-    ∀ w ∈ ((reach true n script ops).step (.close timed terminate)).1.ws, w.st = .exited := by
-  have hi := (runOps_inv ops _ (init_inv n script)).1
-  cases hc : (reach true n script ops).closed with
+/-- after ANY call sequence (synchronous wrappers included) on ANY number of workers under ANY fault
+    script of raise / sleep / kill faults, `close()` — plain, with timeout, or with terminate —
+    returns normally, marks the environment closed, and no worker process is alive.
+    (`fix2` either way: with finite sleeps a plain handshake ends too.) -/
+theorem C13_close_kills_all (n : Nat) (script : List (Nat × FaultAt)) (hs : NoStuckScript script) (fix2 : Bool)
+    (ops : List Op) (timed terminate : Bool) :
+    ((reach true n script ops fix2).step (.close timed terminate)).2 = .ok ∧
+    ((reach true n script ops fix2).step (.close timed terminate)).1.closed = true ∧
+    ∀ w ∈ ((reach true n script ops fix2).step (.close timed terminate)).1.ws, w.st = .exited := by
+  have hi := (runOps_inv ops _ (init_inv n script hs fix2)).1
+  cases hc : (reach true n script ops fix2).closed with
   | false =>
     obtain ⟨h1, h2, h3, _⟩ := closeOp_spec _ timed terminate hi hc
     exact ⟨h1, h2, h3⟩
   | true =>
-    have := closeOp_closed (reach true n script ops) timed terminate hc
+    have := closeOp_closed (reach true n script ops fix2) timed terminate hc
     show (closeOp _ _ _).2 = .ok ∧ (closeOp _ _ _).1.closed = true ∧ ∀ w ∈ (closeOp _ _ _).1.ws, w.st = .exited
     rw [this]
     exact ⟨rfl, hc, hi.closed hc⟩
 
-/-- repaired code: no public call ever blocks forever, whatever was called before and whatever
-    faults the script injects (A4: scripted sleeps are finite) -/
-theorem C13_never_hangs (n : Nat) (script : List (Nat × FaultAt)) (ops : List Op) :
-    Outcome.hang ∉ ((init true n script).runOps ops).2 :=
-  (runOps_inv ops _ (init_inv n script)).2
+/-- no public call ever blocks forever, whatever was called before and whatever raise / sleep /
+    kill faults the script injects (A4: scripted sleeps are finite) -/
+theorem C13_never_hangs (n : Nat) (script : List (Nat × FaultAt)) (hs : NoStuckScript script) (fix2 : Bool)
+    (ops : List Op) : Outcome.hang ∉ ((init true n script fix2).runOps ops).2 :=
+  (runOps_inv ops _ (init_inv n script hs fix2)).2
+
+/-- EVERY fault script — sub-environments stuck for good included — and either variant of the code:
+    a wait with a timeout, whatever its value (0.25 s, 0, …), never blocks; it returns, raises the
+    worker's exception, or reports `multiprocessing.TimeoutError` (`C13_timeout_is_timeout` says when) -/
+theorem C13_timed_wait_never_blocks (fixed fix2 : Bool) (n : Nat) (script : List (Nat × FaultAt)) (ops : List Op)
+    (a : AState) : (waitOp (reach fixed n script ops fix2) a true).2 ≠ .hang := by
+  have hi := runOps_inv0 ops _ (init_inv0 fixed fix2 n script)
+  unfold waitOp
+  split
+  · simp
+  · split
+    · simp
+    · exact waitCore_timed_no_hang _ _ hi.base
+
+/-- repaired code (`fixed`, `fix2`), EVERY fault script — stuck, sleeping, killed, raising workers —
+    and every history, with a call of any kind pending or not: `close(timeout=t)` for any `t`
+    (0 included) and `close(terminate=True)` (which is what garbage collection of an unclosed
+    environment calls) return normally, mark the environment closed and leave no worker alive -/
+theorem C13_timed_close_prompt (n : Nat) (script : List (Nat × FaultAt)) (ops : List Op) (timed terminate : Bool)
+    (h : timed = true ∨ terminate = true) :
+    ((reach true n script ops true).step (.close timed terminate)).2 = .ok ∧
+    ((reach true n script ops true).step (.close timed terminate)).1.closed = true ∧
+    ∀ w ∈ ((reach true n script ops true).step (.close timed terminate)).1.ws, w.st = .exited := by
+  have hi := runOps_inv0 ops _ (init_inv0 true true n script)
+  have hf : (reach true n script ops true).fixed = true ∧ (reach true n script ops true).fix2 = true :=
+    runOps_flags ops _ (init_inv0 true true n script)
+  refine closeOp_prompt _ timed terminate hf.1 hi ?_
+  rcases h with h | h
+  · exact Or.inr ⟨h, hf.2⟩
+  · exact Or.inl h
+
+/-- PARTIAL — the current tree (`fix2 = false`).  What holds for every fault script and history:
+    `close(terminate=True)` (and so garbage collection) returns and leaves nobody alive.  What is
+    missing (and false, see the witness): the same for `close(timeout=t)` when nothing is pending and
+    a sub-environment is stuck — the timeout then bounds nothing. -/
+theorem C13_close_timeout_partial (n : Nat) (script : List (Nat × FaultAt)) (ops : List Op) (timed : Bool) :
+    ((reach true n script ops false).step (.close timed true)).2 = .ok ∧
+    ((reach true n script ops false).step (.close timed true)).1.closed = true ∧
+    ∀ w ∈ ((reach true n script ops false).step (.close timed true)).1.ws, w.st = .exited := by
+  have hi := runOps_inv0 ops _ (init_inv0 true false n script)
+  exact closeOp_prompt _ timed true (runOps_flags ops _ (init_inv0 true false n script)).1 hi (Or.inl rfl)
+
+/-- the current tree: worker 0 is stuck in `step`, `step_wait(timeout)` reports the timeout, and
+    `close(timeout=…)` then never returns (worker 0 alive); the repaired code returns -/
+theorem C13_close_timeout_witness :
+    ((reach true 2 [(0, ⟨.step, 0, .stuck⟩)] [.stepAsync, .stepWait true] false).step (.close true false)).2 = .hang ∧
+    ((reach true 2 [(0, ⟨.step, 0, .stuck⟩)] [.stepAsync, .stepWait true] true).step (.close true false)).2 = .ok := by
+  decide
 
 /-- PARTIAL — the code before the fix.  What holds: from `_state = DEFAULT`, `close(terminate=True)`
     returns normally and leaves no worker alive, whatever state the workers and pipes are in (so a
@@ -206,5 +288,21 @@ example : ∃ w ∈ (reach true 2 [(0, ⟨.reset, 0, .sleep⟩)] [.resetAsync]).
 example : ((reach true 2 [(0, ⟨.setattr, 0, .kill⟩)] [.setAttr]).step (.close false false)).2 = .ok := by decide
 example : ((reach true 2 [(1, ⟨.step, 0, .kill⟩)] [.stepAsync, .stepWait false]).step (.close false false)).2 = .ok ∧
     (reach true 2 [(1, ⟨.step, 0, .kill⟩)] [.stepAsync, .stepWait false]).astate = .default := by decide
+
+/-- the synchronous wrappers are rejected like the async calls, and the pending reset then
+    completes and the following `step()` is a fresh step -/
+example : misuse (reach true 2 [] [.stepAsync]) .callSync = some .alreadyPending := by decide
+example : ((init true 2 []).runOps [.resetAsync, .callSync, .stepSync, .resetSync, .setAttr, .resetWait false,
+    .stepSync, .callSync]).2 =
+    [.ok, .err .alreadyPending, .err .alreadyPending, .err .alreadyPending, .err .alreadyPending, .ok, .ok, .ok] := by
+  decide
+/-- a stuck worker: a wait with a timeout reports it, `close(timeout)` and `close(terminate)` return -/
+example : ((init true 3 [(1, ⟨.call, 0, .stuck⟩)]).runOps [.callAsync, .callWait true, .close true false]).2 =
+    [.ok, .err .timeout, .ok] := by decide
+example : ((init true 3 [(1, ⟨.reset, 0, .stuck⟩)]).runOps [.resetAsync, .close false true]).2 = [.ok, .ok] := by decide
+/-- … while an untimed wait on it never returns (documented: "never times out") -/
+example : ((init true 2 [(0, ⟨.step, 0, .stuck⟩)]).runOps [.stepAsync, .stepWait false]).2 = [.ok, .hang] := by decide
+example : NoStuckScript [(0, ⟨.step, 0, .sleep⟩), (1, ⟨.reset, 2, .raise 3⟩), (1, ⟨.call, 0, .kill⟩)] := by
+  unfold NoStuckScript; decide
 
 end VecProto
